@@ -448,8 +448,13 @@ func probe(in *proc.Instance) error {
 		return fmt.Errorf("probe reply %s: %v", short(res.Body), err)
 	}
 	arr, ok := r.Result.([]interface{})
-	if r.IsError || !ok || len(arr) != len(in.Keys) {
-		return fmt.Errorf("probe reply %s does not list the wallet's %d accounts", short(res.Body), len(in.Keys))
+	if r.IsError || !ok || len(arr) != len(in.Listed()) {
+		return fmt.Errorf("probe reply %s does not list the wallet's %d accounts", short(res.Body), len(in.Listed()))
+	}
+	// "keeps serving later requests": the answer has to be the answer to THIS request, not
+	// one that inherited its id from an earlier body
+	if id, isStr := r.ID.(string); !isStr || id != "verif-liveness" {
+		return fmt.Errorf("probe reply %s does not carry the probe's id \"verif-liveness\"", short(res.Body))
 	}
 	return nil
 }
@@ -508,6 +513,114 @@ var keys = proc.Keys(3)
 
 var idMenu = []string{`1`, `0`, `-7`, `"a"`, `""`, `18446744073709551617`, `1.5`, `1e2`, `"é"`, `null`, `true`, `{}`, `[]`, `[1]`, `{"x":1}`}
 
+// ---- id tokens ---------------------------------------------------------------------------
+// The id is the one member an implementation is tempted to copy from a request it cannot
+// otherwise process, so it gets a generator of its own: JSON texts, spelled by hand.
+
+// idStrings: valid JSON strings whose text needs care when copied or scanned (escaped quotes,
+// backslashes, every short escape, \u escapes in both hex cases, surrogate pairs, DEL, text
+// that looks like JSON structure or like another id member).
+var idStrings = []string{`"say \"hi\""`, `"\""`, `"\\"`, `"\\\""`, `"a\\"`, `"\\\\"`, `"tab\there"`, `"nl\nhere"`, `"\b\f\n\r\t"`, `"\/path\/x"`, `"\u0041"`, `"\u00e9"`, `"\u00E9"`, `"\u0022q\u0022"`,
+	`"\u005c"`, `"\u0000"`, `"\u001f"`, `"\ud83d\ude00"`, `"\u2028"`, "\"\x7f\"", `"{\"id\":1}"`, `"[1,2]"`, `"null"`, `"1"`, `"x\",\"id\":\"y"`, `" "`, `"é"`, `"日本"`, `"\\u0041"`, `"}"`, `"]"`, `","`, `":"`}
+
+// idNumbers: valid JSON numbers in odd spellings.
+var idNumbers = []string{`0`, `-0`, `-0.0`, `0.0`, `0e0`, `0E-0`, `1.0`, `1e2`, `1E2`, `1E+2`, `1e+2`, `1e-2`, `100e-2`, `0.5e1`, `-1E+2`, `1.5`, `-2.25`, `1e400`, `1e-400`, `18446744073709551616`,
+	`-9223372036854775809`, `1.000000000000000000000001`, `123456789012345678901234567890`, `9007199254740993`}
+
+// idBroken: tokens in the id position that are NOT valid JSON (each makes the body unparseable).
+var idBroken = []string{`01`, `00`, `-01`, `1.`, `.5`, `-.5`, `2e`, `2e+`, `2E-`, `1e1.5`, `-`, `+1`, `1-2`, `1+2`, `0x10`, `1_000`, `1,5`, `١`, `NaN`, `Infinity`, `-Infinity`, `nul`, `True`, `'a'`,
+	"\"tab\there\"", "\"nl\nhere\"", "\"nul\x00byte\"", "\"esc\x1b\"", `"bad \x escape"`, `"bad \u12 escape"`, `"bad \uZZZZ"`, `"\ud83d"x`, `"unterminated`, `"half \`, `"a"b"`, `"a" "b"`, `1 2`, `"\"`, `""""`}
+
+// genIDToken draws an id token; valid reports whether it is valid JSON.
+func genIDToken(rt *rapid.T, label string) (tok string, valid bool) {
+	switch k := rapid.IntRange(0, 9).Draw(rt, label+".idkind"); {
+	case k < 3:
+		return rapid.SampledFrom(idStrings).Draw(rt, label+".idstr"), true
+	case k < 5:
+		return rapid.SampledFrom(idNumbers).Draw(rt, label+".idnum"), true
+	case k < 6:
+		return rapid.SampledFrom(idMenu).Draw(rt, label+".idmenu"), true
+	default:
+		return rapid.SampledFrom(idBroken).Draw(rt, label+".idbroken"), false
+	}
+}
+
+// damage: ways in which the REST of a request object makes it impossible to process, given
+// as what precedes and what follows the id member inside the braces.  "" = nothing wrong
+// (then the id token itself is what is broken, or the request is fine).
+var damages = []struct{ name, rest string }{
+	{"none", `"jsonrpc":"2.0","method":"eth_blockNumber","params":[]`},
+	{"params-object", `"jsonrpc":"2.0","method":"eth_blockNumber","params":{"a":1}`},
+	{"params-string", `"method":"eth_blockNumber","params":"x"`},
+	{"method-number", `"jsonrpc":"2.0","method":5`},
+	{"method-array", `"method":["eth_blockNumber"],"params":[]`},
+	{"jsonrpc-number", `"jsonrpc":2.0,"method":"eth_blockNumber"`},
+	{"sendtx-params-object", `"jsonrpc":"2.0","method":"eth_sendTransaction","params":{"from":"0x1234"}`},
+	{"trailing-comma", `"jsonrpc":"2.0","method":"eth_blockNumber",`},
+	{"missing-colon", `"jsonrpc":"2.0","method" "eth_blockNumber"`},
+	{"bad-literal", `"jsonrpc":"2.0","method":"eth_blockNumber","params":[tru]`},
+	{"control-char-in-string", "\"jsonrpc\":\"2.0\",\"method\":\"eth_block\x01Number\""},
+	{"bad-escape", `"jsonrpc":"2.0","method":"eth_\qblockNumber"`},
+	{"unbalanced", `"jsonrpc":"2.0","method":"eth_blockNumber","params":[[]`},
+}
+
+// genIDBody builds one request object around a generated id token, with the id member
+// before, after, or in the middle of the rest, optionally truncated right after the id
+// and optionally wrapped into a batch.
+func genIDBody(rt *rapid.T, label string) Body {
+	tok, valid := genIDToken(rt, label)
+	dmg := rapid.SampledFrom(damages).Draw(rt, label+".damage")
+	if valid && dmg.name == "none" && rapid.IntRange(0, 3).Draw(rt, label+".forcedamage") > 0 {
+		dmg = damages[1+rapid.IntRange(0, len(damages)-2).Draw(rt, label+".damage2")]
+	}
+	if !valid && rapid.Bool().Draw(rt, label+".onlyid") {
+		dmg = damages[0] // the id token is the only thing wrong with the request
+	}
+	idm := `"id":` + rapid.SampledFrom([]string{"", " ", "\n\t"}).Draw(rt, label+".idspace") + tok
+	var obj string
+	switch rapid.IntRange(0, 4).Draw(rt, label+".idpos") {
+	case 0, 1:
+		obj = `{` + idm + `,` + dmg.rest + `}`
+	case 2, 3:
+		obj = `{` + dmg.rest + `,` + idm + `}`
+	default: // in the middle
+		i := strings.Index(dmg.rest, `,"`)
+		if i < 0 {
+			obj = `{` + idm + `,` + dmg.rest + `}`
+		} else {
+			obj = `{` + dmg.rest[:i] + `,` + idm + dmg.rest[i:] + `}`
+		}
+	}
+	name := "id-token-"
+	if valid {
+		name += "valid+"
+	} else {
+		name += "broken+"
+	}
+	if dmg.name != "none" {
+		name += "rest-damaged"
+	} else {
+		name += "rest-fine"
+	}
+	switch rapid.IntRange(0, 9).Draw(rt, label+".wrap") {
+	case 0: // cut right behind the id token
+		if i := strings.Index(obj, idm); i >= 0 {
+			obj = obj[:i+len(idm)]
+			name += "+cut-after-id"
+		}
+	case 1, 2:
+		obj = `[` + obj + `]`
+		name += "+in-batch"
+	case 3:
+		obj = `[{"jsonrpc":"2.0","id":1,"method":"eth_blockNumber"},` + obj + `]`
+		name += "+in-batch"
+	case 4:
+		obj = `[` + obj + `,{"jsonrpc":"2.0","id":1,"method":"eth_blockNumber"}]`
+		name += "+in-batch"
+	}
+	return textBody(name, obj)
+}
+
 func validRequests() []string {
 	k0, k1 := keys[0].Addr0x(), keys[1].Addr0x()
 	return []string{
@@ -564,7 +677,15 @@ func genMember(rt *rapid.T, label string) string {
 	case k < 9:
 		return rapid.SampledFrom(badSendTx()).Draw(rt, label+".badtx")
 	default:
-		id := rapid.SampledFrom(idMenu).Draw(rt, label+".id")
+		var id string
+		switch rapid.IntRange(0, 2).Draw(rt, label+".idsrc") {
+		case 0:
+			id = rapid.SampledFrom(idMenu).Draw(rt, label+".id")
+		case 1:
+			id = rapid.SampledFrom(idStrings).Draw(rt, label+".idstr")
+		default:
+			id = rapid.SampledFrom(idNumbers).Draw(rt, label+".idnum")
+		}
 		return `{"jsonrpc":"2.0","id":` + id + `,"method":"eth_getBalance","params":["0x00000000000000000000000000000000000000cc","latest"]}`
 	}
 }
@@ -623,7 +744,9 @@ func textBody(label, s string) Body {
 
 func genBody(rt *rapid.T, label string, thorough bool) Body {
 	var b Body
-	switch k := rapid.IntRange(0, 19).Draw(rt, label+".kind"); {
+	switch k := rapid.IntRange(-3, 19).Draw(rt, label+".kind"); {
+	case k < 0: // a request object around a generated id token, damaged or not
+		b = genIDBody(rt, label+".idbody")
 	case k < 2: // arbitrary bytes
 		n := gen.Len(rt, label+".len", 300)
 		b = Body{Label: "random-bytes", Hex: gen.HexBytes(rt, label+".bytes", n)}
